@@ -197,17 +197,17 @@ theorem lstat_some {ob : Obj} (h : Good fs dst) (hg : fs.get dst = some ob) : ls
   simp [resolve_nofollow h, bind, Except.bind, h.ne, hg, pure, Except.pure]
 
 theorem mkdir_fresh (h : Good fs dst) (hn : fs.get dst = none) :
-    mkdir fs dst = .ok ((fs.set dst (.dir none none)).touch dst.dropLast) := by
+    mkdir fs dst = .ok ((fs.set dst (.dir {} none)).touch dst.dropLast) := by
   unfold mkdir
   simp [resolve_nofollow h, bind, Except.bind, h.ne, hn, h.parent, pure, Except.pure]
 
 theorem symlinkAt_fresh (target : Bytes) (h : Good fs dst) (hn : fs.get dst = none) :
-    symlinkAt fs target dst = .ok ((fs.set dst (.symlink target none)).touch dst.dropLast) := by
+    symlinkAt fs target dst = .ok ((fs.set dst (.symlink target {})).touch dst.dropLast) := by
   unfold symlinkAt
   simp [resolve_nofollow h, bind, Except.bind, h.ne, hn, h.parent, pure, Except.pure]
 
 theorem mknod_fresh (ma mi : Nat) (h : Good fs dst) (hn : fs.get dst = none) :
-    mknod fs dst ma mi = .ok ((fs.set dst (.dev ma mi none none)).touch dst.dropLast) := by
+    mknod fs dst ma mi = .ok ((fs.set dst (.dev ma mi {} none)).touch dst.dropLast) := by
   unfold mknod
   simp [resolve_nofollow h, bind, Except.bind, h.ne, hn, h.parent, pure, Except.pure]
 
@@ -221,16 +221,50 @@ theorem unlinkIfThere_fresh (h : Good fs dst) (hn : fs.get dst = none) :
   simp [resolve_nofollow h, bind, Except.bind, hn]
 
 theorem createTrunc_fresh (data : Bytes) (h : Good fs dst) (hn : fs.get dst = none) :
-    createTrunc fs dst data = .ok ((fs.set dst (.file data none none)).touch dst.dropLast) := by
+    createTrunc fs dst data = .ok ((fs.set dst (.file data {} none)).touch dst.dropLast) := by
   unfold createTrunc
   simp [resolve_ok h (fun _ => hn ▸ notLink_none), bind, Except.bind, h.ne, hn, h.parent, pure,
     Except.pure]
 
-theorem setAttr_some {ob : Obj} (follow : Bool) (a : Nat) (h : Good fs dst) (hg : fs.get dst = some ob)
+/-- what `chown` leaves of the attributes `a` of a directory (`isDir`) / of anything else -/
+def chownAttr (isDir : Bool) (a : Attr) (u g : Nat) : Attr :=
+  { a with owner := some (u, g), mode := if isDir then a.mode else a.mode.map clearSetID }
+
+theorem chown_some {ob : Obj} (follow : Bool) (u g : Nat) (h : Good fs dst) (hg : fs.get dst = some ob)
     (hL : follow = true → NotLink (some ob)) :
-    setAttr fs follow dst a = .ok (fs.set dst (ob.withAttr (some a))) := by
-  unfold setAttr
-  simp [resolve_ok h (fun hf => hg ▸ hL hf), bind, Except.bind, hg, pure, Except.pure]
+    chown fs follow dst u g = .ok (fs.set dst (ob.withAttr (chownAttr ob.isDir ob.attr u g))) := by
+  unfold chown
+  simp [resolve_ok h (fun hf => hg ▸ hL hf), bind, Except.bind, hg, pure, Except.pure, chownAttr]
+
+theorem chmod_some {ob : Obj} (mode : Nat) (h : Good fs dst) (hg : fs.get dst = some ob)
+    (hL : NotLink (some ob)) :
+    chmod fs dst mode = .ok (fs.set dst (ob.withAttr { ob.attr with mode := some (mode % 4096) })) := by
+  unfold chmod
+  simp [resolve_ok h (fun _ => hg ▸ hL), bind, Except.bind, hg, pure, Except.pure]
+
+/-- may the extended attribute `k` be set on `ob`: `user.*` on regular files and directories only -/
+def xaOK (ob : Obj) (k : Bytes) : Bool :=
+  match ob with
+  | .dir .. | .file .. => true
+  | _ => !isUserXattr k
+
+theorem xaOK_withAttr (ob : Obj) (a : Attr) (k : Bytes) : xaOK (ob.withAttr a) k = xaOK ob k := by
+  cases ob <;> rfl
+
+theorem lsetxattr_some {ob : Obj} (k v : Bytes) (h : Good fs dst) (hg : fs.get dst = some ob)
+    (hk : xaOK ob k = true) :
+    lsetxattr fs dst k v =
+      .ok (fs.set dst (ob.withAttr { ob.attr with xattrs := xaSet ob.attr.xattrs k v })) := by
+  unfold lsetxattr
+  cases ob <;>
+    simp_all [xaOK, resolve_nofollow h, bind, Except.bind, pure, Except.pure]
+
+/-- EPERM: a `user.*` attribute on a symbolic link or a device node -/
+theorem lsetxattr_refused {ob : Obj} (k v : Bytes) (h : Good fs dst) (hg : fs.get dst = some ob)
+    (hk : xaOK ob k = false) : lsetxattr fs dst k v = .error .other := by
+  unfold lsetxattr
+  cases ob <;>
+    simp_all [xaOK, resolve_nofollow h, bind, Except.bind]
 
 theorem chtimes_some {ob : Obj} (t : Nat) (h : Good fs dst) (hg : fs.get dst = some ob)
     (hL : NotLink (some ob)) :
@@ -267,102 +301,179 @@ theorem Upd.trans {f g h : FS} {dst : List Name} {o₁ o₂ : Obj} (h1 : Upd f g
     (h2 : Upd g h dst o₂) : Upd f h dst o₂ :=
   ⟨h2.good, fun p hp => (h2.other p hp).trans (h1.other p hp), h2.self⟩
 
-/-- the attribute stamp `setPerms` leaves (on an object created without one) -/
-def stampM (o : Opts) (m : Meta) : Option Nat :=
-  if o.noSameOwner && o.noSamePermissions then none else some (attrOf m)
+/-! ### attributes -/
 
-def linkStampM (o : Opts) (m : Meta) : Option Nat :=
-  if o.noSameOwner then none else some (attrOf m)
+theorem attr_withAttr (ob : Obj) (a : Attr) : (ob.withAttr a).attr = a := by cases ob <;> rfl
+theorem isDir_withAttr_eq (ob : Obj) (a : Attr) : (ob.withAttr a).isDir = ob.isDir := by cases ob <;> rfl
+theorem withAttr_withAttr (ob : Obj) (a b : Attr) : (ob.withAttr a).withAttr b = ob.withAttr b := by
+  cases ob <;> rfl
+theorem withAttr_attr (ob : Obj) : ob.withAttr ob.attr = ob := by cases ob <;> rfl
+
+/-- the `lsetxattr` loop on the attribute list `m` -/
+def xaFold (m xs : List (Bytes × Bytes)) : List (Bytes × Bytes) :=
+  xs.foldl (fun m kv => xaSet m kv.1 kv.2) m
+
+theorem xaSet_fresh {m : List (Bytes × Bytes)} {k v : Bytes} (h : k ∉ m.map Prod.fst) :
+    xaSet m k v = m ++ [(k, v)] := by
+  unfold xaSet
+  rw [if_neg]
+  simp only [List.any_eq_true, decide_eq_true_eq, not_exists, not_and]
+  intro kv hkv e
+  exact h (List.mem_map.2 ⟨kv, hkv, e⟩)
+
+/-- with pairwise distinct keys, none of them present yet, the loop appends the list -/
+theorem xaFold_fresh : ∀ (xs m : List (Bytes × Bytes)), ((m ++ xs).map Prod.fst).Nodup →
+    xaFold m xs = m ++ xs
+  | [], m, _ => by simp [xaFold]
+  | (k, v) :: xs, m, h => by
+    have hk : k ∉ m.map Prod.fst := by
+      simp only [List.map_append, List.map_cons] at h
+      intro hm
+      exact (List.nodup_append.1 h).2.2 k hm k (by simp) rfl
+    show xaFold (xaSet m k v) xs = _
+    rw [xaSet_fresh hk, xaFold_fresh xs (m ++ [(k, v)]) (by simpa using h)]
+    simp
+
+theorem xaFold_nil_left {xs : List (Bytes × Bytes)} (h : (xs.map Prod.fst).Nodup) : xaFold [] xs = xs := by
+  simpa using xaFold_fresh xs [] (by simpa using h)
+
+/-- the attributes `setPerms` leaves on an object created with none: the archived owner and xattrs unless
+    `noSameOwner`, the archived permission, set-id and sticky bits unless `noSamePermissions` (all of them:
+    `chown` comes before `chmod`) -/
+def attrM (o : Opts) (m : Meta) : Attr :=
+  { owner := if o.noSameOwner then none else some (m.uid.toNat, m.gid.toNat)
+    mode := if o.noSamePermissions then none else some (modeOf m)
+    xattrs := if o.noSameOwner then [] else m.xattrs }
+
+/-- on a fresh symbolic link (`lchown` + `lsetxattr` only) -/
+def linkAttrM (o : Opts) (m : Meta) : Attr :=
+  { owner := if o.noSameOwner then none else some (m.uid.toNat, m.gid.toNat)
+    mode := none
+    xattrs := if o.noSameOwner then [] else m.xattrs }
 
 def mtimeM (m : Meta) : Option Nat := if m.mtime = 0 then none else some m.mtime.toNat
 
-/-- the attribute `setPerms` leaves on an object whose attribute was `a₀` -/
-def stampOver (o : Opts) (m : Meta) (a₀ : Option Nat) : Option Nat :=
-  if o.noSameOwner && o.noSamePermissions then a₀ else some (attrOf m)
+/-- the attributes `setPerms` leaves on an object (a directory: `isDir`) whose attributes were `a` -/
+def permsAttr (o : Opts) (m : Meta) (isDir : Bool) (a : Attr) : Attr :=
+  { owner := if o.noSameOwner then a.owner else some (m.uid.toNat, m.gid.toNat)
+    mode := if o.noSamePermissions then
+        (if o.noSameOwner || isDir then a.mode else a.mode.map clearSetID)
+      else some (modeOf m)
+    xattrs := if o.noSameOwner then a.xattrs else xaFold a.xattrs m.xattrs }
 
-theorem withAttr_withAttr (ob : Obj) (a b : Option Nat) : (ob.withAttr a).withAttr b = ob.withAttr b := by
-  cases ob <;> rfl
+theorem permsAttr_fresh (o : Opts) (m : Meta) (d : Bool) (h : (m.xattrs.map Prod.fst).Nodup) :
+    permsAttr o m d {} = attrM o m := by
+  unfold permsAttr attrM
+  cases o.noSameOwner <;> cases o.noSamePermissions <;> cases d <;> simp [xaFold_nil_left h]
+
+theorem modeOf_mod (m : Meta) : modeOf m % 4096 = modeOf m := by
+  unfold modeOf; exact Nat.mod_mod _ _
+
+theorem setXattrs_okay {dst : List Name} (ob : Obj) :
+    ∀ (xs : List (Bytes × Bytes)) (fs : FS) (a : Attr), Good fs dst → fs.get dst = some (ob.withAttr a) →
+      (∀ kv ∈ xs, xaOK ob kv.1 = true) →
+      Okay (fun fs' => Upd fs fs' dst (ob.withAttr { a with xattrs := xaFold a.xattrs xs }))
+        (setXattrs fs dst xs)
+  | [], fs, a, h, hg, _ => by
+    rw [setXattrs]
+    exact ⟨h, fun _ _ => rfl, hg⟩
+  | (k, v) :: rest, fs, a, h, hg, hal => by
+    rw [setXattrs]
+    have h1 := lsetxattr_some k v h hg (by rw [xaOK_withAttr]; exact hal (k, v) (by simp))
+    rw [attr_withAttr, withAttr_withAttr] at h1
+    refine Tri.bind (Q := fun f => Upd fs f dst (ob.withAttr { a with xattrs := xaSet a.xattrs k v }))
+      (Okay.sys h1 (upd_set h _)) ?_
+    intro f1 hf1
+    have := setXattrs_okay ob rest f1 { a with xattrs := xaSet a.xattrs k v } hf1.good hf1.self
+      (fun kv hkv => hal kv (by simp [hkv]))
+    exact this.mono (fun _ h => h) (fun f2 hf2 => hf1.trans hf2)
 
 theorem setPerms_okay (o : Opts) (m : Meta) {fs : FS} {dst : List Name} {ob : Obj} (h : Good fs dst)
-    (hg : fs.get dst = some ob) (hL : NotLink (some ob)) :
-    Okay (fun fs' => Upd fs fs' dst
-        (if o.noSameOwner && o.noSamePermissions then ob else ob.withAttr (some (attrOf m))))
+    (hg : fs.get dst = some ob) (hL : NotLink (some ob))
+    (hal : o.noSameOwner = false → ∀ kv ∈ m.xattrs, xaOK ob kv.1 = true) :
+    Okay (fun fs' => Upd fs fs' dst (ob.withAttr (permsAttr o m ob.isDir ob.attr)))
       (setPerms o fs dst m) := by
-  have step : ∀ (f : FS) (follow : Bool) (ob₁ : Obj), Good f dst → f.get dst = some ob₁ →
-      NotLink (some ob₁) →
-      Okay (fun f' => Upd f f' dst (ob₁.withAttr (some (attrOf m))))
-        (sys f (setAttr f follow dst (attrOf m))) := by
-    intro f follow ob₁ hf hg₁ hL₁
-    exact Okay.sys (setAttr_some follow _ hf hg₁ (fun _ => hL₁)) (upd_set hf _)
-  have hrefl : Upd fs fs dst ob := ⟨h, fun _ _ => rfl, hg⟩
-  have hL' : NotLink (some (ob.withAttr (some (attrOf m)))) := notLink_withAttr hL
+  -- chown, then the xattrs
+  have chownStep : Okay (fun f => Upd fs f dst (ob.withAttr
+        (chownAttr ob.isDir ob.attr m.uid.toNat m.gid.toNat)))
+      (sys fs (chown fs true dst m.uid.toNat m.gid.toNat)) :=
+    Okay.sys (chown_some true _ _ h hg (fun _ => hL)) (upd_set h _)
+  have xaStep : o.noSameOwner = false → ∀ f1 : FS,
+      Upd fs f1 dst (ob.withAttr (chownAttr ob.isDir ob.attr m.uid.toNat m.gid.toNat)) →
+      Okay (fun f => Upd fs f dst (ob.withAttr
+        { chownAttr ob.isDir ob.attr m.uid.toNat m.gid.toNat with
+          xattrs := xaFold ob.attr.xattrs m.xattrs })) (setXattrs f1 dst m.xattrs) := by
+    intro hO f1 hf1
+    have := setXattrs_okay ob m.xattrs f1 _ hf1.good hf1.self (hal hO)
+    exact this.mono (fun _ h => h) (fun f2 hf2 => hf1.trans hf2)
+  -- chmod on whatever attributes `a` the object has by then
+  have chmodStep : ∀ (f : FS) (a : Attr), Upd fs f dst (ob.withAttr a) →
+      Okay (fun f' => Upd fs f' dst (ob.withAttr { a with mode := some (modeOf m) }))
+        (sys f (chmod f dst (modeOf m))) := by
+    intro f a hf
+    have h1 := chmod_some (modeOf m) hf.good hf.self (notLink_withAttr hL)
+    rw [attr_withAttr, withAttr_withAttr, modeOf_mod] at h1
+    exact Okay.sys h1 (hf.trans (upd_set hf.good _))
+  have hrefl : Upd fs fs dst (ob.withAttr ob.attr) := ⟨h, fun _ _ => rfl, by rw [withAttr_attr]; exact hg⟩
   unfold setPerms
   simp only [pure_bind]
   cases hO : o.noSameOwner <;> cases hP : o.noSamePermissions <;>
-    simp only [Bool.false_eq_true, ↓reduceIte, Bool.and_false, Bool.and_true, Bool.and_self]
-  · -- chown, (xattrs,) chmod
-    refine Tri.bind (step fs true ob h hg hL) ?_
+    simp only [Bool.false_eq_true, ↓reduceIte]
+  · -- chown, xattrs, chmod
+    refine Tri.bind chownStep (fun f0 hf0 => Tri.bind (xaStep hO f0 hf0) ?_)
     intro f1 hf1
-    by_cases hx : m.xattrs = []
-    · simp only [hx, ↓reduceIte]
-      have := step f1 true _ hf1.good hf1.self hL'
-      rw [withAttr_withAttr] at this
-      exact this.mono (fun _ h => h) (fun f2 hf2 => hf1.trans hf2)
-    · simp only [hx, ↓reduceIte]
-      have h2 := step f1 false _ hf1.good hf1.self hL'
-      rw [withAttr_withAttr] at h2
-      refine Tri.bind h2 ?_
-      intro f2 hf2
-      have h3 := step f2 true _ hf2.good hf2.self hL'
-      rw [withAttr_withAttr] at h3
-      exact h3.mono (fun _ h => h) (fun f3 hf3 => (hf1.trans hf2).trans hf3)
-  · -- chown, (xattrs)
-    refine Tri.bind (step fs true ob h hg hL) ?_
+    have := chmodStep f1 _ hf1
+    refine this.mono (fun _ h => h) (fun f2 hf2 => ?_)
+    have e : permsAttr o m ob.isDir ob.attr = { ({ chownAttr ob.isDir ob.attr m.uid.toNat m.gid.toNat with
+        xattrs := xaFold ob.attr.xattrs m.xattrs } : Attr) with mode := some (modeOf m) } := by
+      simp [permsAttr, chownAttr, hO, hP]
+    rw [e]; exact hf2
+  · -- chown, xattrs
+    refine Tri.bind chownStep (fun f0 hf0 => Tri.bind (xaStep hO f0 hf0) ?_)
     intro f1 hf1
-    by_cases hx : m.xattrs = []
-    · simp only [hx, ↓reduceIte]
-      exact Tri.pure hf1
-    · simp only [hx, ↓reduceIte]
-      have h2 := step f1 false _ hf1.good hf1.self hL'
-      rw [withAttr_withAttr] at h2
-      refine Tri.bind h2 ?_
-      intro f2 hf2
-      exact Tri.pure (hf1.trans hf2)
+    have e : permsAttr o m ob.isDir ob.attr = { chownAttr ob.isDir ob.attr m.uid.toNat m.gid.toNat with
+        xattrs := xaFold ob.attr.xattrs m.xattrs } := by
+      simp [permsAttr, chownAttr, hO, hP]
+    rw [e]; exact Tri.pure hf1
   · -- chmod
-    exact step fs true ob h hg hL
-  · exact Tri.pure hrefl
+    have := chmodStep fs _ hrefl
+    refine this.mono (fun _ h => h) (fun f2 hf2 => ?_)
+    have e : permsAttr o m ob.isDir ob.attr = { ob.attr with mode := some (modeOf m) } := by
+      simp [permsAttr, hO, hP]
+    rw [e]; exact hf2
+  · have e : permsAttr o m ob.isDir ob.attr = ob.attr := by
+      simp [permsAttr, hO, hP]
+    rw [e]; exact Tri.pure hrefl
 
 /-! ### the methods on a fresh destination -/
 
 /-- object constructors with an attribute and an mtime slot: `Obj.dir`, `Obj.file d`, `Obj.dev ma mi` -/
-structure Slots (k : Option Nat → Option Nat → Obj) : Prop where
+structure Slots (k : Attr → Option Nat → Obj) : Prop where
   attr : ∀ a t b, (k a t).withAttr b = k b t
+  getAttr : ∀ a t, (k a t).attr = a
   mtime : ∀ a t u, (k a t).withMtime u = k a u
   notLink : ∀ a t, NotLink (some (k a t))
 
-theorem slots_dir : Slots Obj.dir := ⟨fun _ _ _ => rfl, fun _ _ _ => rfl, fun _ _ _ _ e => by cases e⟩
+theorem slots_dir : Slots Obj.dir :=
+  ⟨fun _ _ _ => rfl, fun _ _ => rfl, fun _ _ _ => rfl, fun _ _ _ _ e => by cases e⟩
 theorem slots_file (d : Bytes) : Slots (Obj.file d) :=
-  ⟨fun _ _ _ => rfl, fun _ _ _ => rfl, fun _ _ _ _ e => by cases e⟩
+  ⟨fun _ _ _ => rfl, fun _ _ => rfl, fun _ _ _ => rfl, fun _ _ _ _ e => by cases e⟩
 theorem slots_dev (ma mi : Nat) : Slots (Obj.dev ma mi) :=
-  ⟨fun _ _ _ => rfl, fun _ _ _ => rfl, fun _ _ _ _ e => by cases e⟩
+  ⟨fun _ _ _ => rfl, fun _ _ => rfl, fun _ _ _ => rfl, fun _ _ _ _ e => by cases e⟩
 
 section tail
-variable {k : Option Nat → Option Nat → Obj} {fs0 f1 : FS} {dst : List Name}
+variable {k : Attr → Option Nat → Obj} {fs0 f1 : FS} {dst : List Name}
 
 theorem perms_tail (o : Opts) (m : Meta) (hk : Slots k) (hG : Good fs0 dst)
-    (hc : Creates fs0 f1 dst (k none none)) :
-    Okay (fun f2 => Creates fs0 f2 dst (k (stampM o m) none)) (setPerms o f1 dst m) := by
-  refine (setPerms_okay o m (hG.creates hc) hc.get_self (hk.notLink _ _)).mono (fun _ h => h) ?_
+    (hc : Creates fs0 f1 dst (k {} none)) (hnd : (m.xattrs.map Prod.fst).Nodup)
+    (hal : o.noSameOwner = false → ∀ kv ∈ m.xattrs, xaOK (k {} none) kv.1 = true) :
+    Okay (fun f2 => Creates fs0 f2 dst (k (attrM o m) none)) (setPerms o f1 dst m) := by
+  refine (setPerms_okay o m (hG.creates hc) hc.get_self (hk.notLink _ _) hal).mono (fun _ h => h) ?_
   intro f2 hf2
-  have hob : (if (o.noSameOwner && o.noSamePermissions) = true then k none none
-      else (k none none).withAttr (some (attrOf m))) = k (stampM o m) none := by
-    unfold stampM; split
-    · rfl
-    · exact hk.attr _ _ _
-  rw [hob] at hf2
+  rw [hk.getAttr, permsAttr_fresh o m _ hnd, hk.attr] at hf2
   exact hc.upd hf2.other hf2.self
 
-theorem times_tail (a : Option Nat) (t : Nat) (hk : Slots k) (hG : Good fs0 dst)
+theorem times_tail (a : Attr) (t : Nat) (hk : Slots k) (hG : Good fs0 dst)
     (hc : Creates fs0 f1 dst (k a none)) :
     Okay (fun f2 => Creates fs0 f2 dst (k a (some t))) (sys f1 (chtimes f1 dst t)) := by
   have hG1 := hG.creates hc
@@ -377,22 +488,23 @@ theorem mtimeM_zero {m : Meta} (h : m.mtime = 0) : mtimeM m = none := by simp [m
 theorem mtimeM_pos {m : Meta} (h : ¬ m.mtime = 0) : mtimeM m = some m.mtime.toNat := by simp [mtimeM, h]
 
 theorem createDir_fresh (o : Opts) (root : List Name) (s : LState) (name : Bytes) (m : Meta)
-    (h : Good s.fs (dstOf root name)) (hn : s.fs.get (dstOf root name) = none) :
+    (h : Good s.fs (dstOf root name)) (hn : s.fs.get (dstOf root name) = none)
+    (hnd : (m.xattrs.map Prod.fst).Nodup) :
     ∃ s', createDir o root s name m = .ok s' ∧
-      Creates s.fs s'.fs (dstOf root name) (.dir (stampM o m) (mtimeM m)) ∧
+      Creates s.fs s'.fs (dstOf root name) (.dir (attrM o m) (mtimeM m)) ∧
       s'.dirTimes = s.dirTimes ++
         (if m.mtime = 0 then [] else [(dstOf root name, m.mtime.toNat)]) := by
-  apply Okay.elim (Q := fun s' : LState => Creates s.fs s'.fs (dstOf root name) (.dir (stampM o m) (mtimeM m)) ∧
+  apply Okay.elim (Q := fun s' : LState => Creates s.fs s'.fs (dstOf root name) (.dir (attrM o m) (mtimeM m)) ∧
       s'.dirTimes = s.dirTimes ++ (if m.mtime = 0 then [] else [(dstOf root name, m.mtime.toNat)]))
   unfold createDir
   generalize dstOf root name = dst at *
   simp only []
   rw [lstat_fresh h hn]
   simp only []
-  refine Tri.bind (Q := fun f => Creates s.fs f dst (.dir none none))
+  refine Tri.bind (Q := fun f => Creates s.fs f dst (.dir {} none))
     (Okay.sys (mkdir_fresh h hn) (creates_create s.fs h.ne _)) ?_
   intro f1 hf1
-  refine Tri.bind (perms_tail o m slots_dir h hf1) ?_
+  refine Tri.bind (perms_tail o m slots_dir h hf1 hnd (fun _ _ _ => rfl)) ?_
   intro f2 hf2
   split
   · rename_i h0
@@ -402,21 +514,23 @@ theorem createDir_fresh (o : Opts) (root : List Name) (s : LState) (name : Bytes
     intro f3 hf3
     exact Tri.pure ⟨by rw [mtimeM_pos h0]; exact hf3, by simp⟩
 
-/-- the destination is a real directory already (`UnTar` into an existing directory): no `mkdir`, the
-    directory keeps its attribute stamp unless the options ask for the archived one, and keeps its mtime
-    when the archive records none -/
+/-- the destination is a real directory already (`UnTar` into an existing directory): no `mkdir`; the
+    directory keeps the owner and the xattrs it has under `noSameOwner` and gets the archived owner, and the
+    archived xattrs on top of its own, otherwise; it keeps its mode under `noSamePermissions` (a directory's
+    set-id bits survive `chown`) and gets the archived one otherwise; it keeps its mtime when the archive
+    records none -/
 theorem createDir_existing (o : Opts) (root : List Name) (s : LState) (name : Bytes) (m : Meta)
-    {a₀ m₀ : Option Nat} (h : Good s.fs (dstOf root name))
+    {a₀ : Attr} {m₀ : Option Nat} (h : Good s.fs (dstOf root name))
     (hg : s.fs.get (dstOf root name) = some (.dir a₀ m₀)) :
     ∃ s', createDir o root s name m = .ok s' ∧
       (∀ p, p ≠ dstOf root name → s'.fs.get p = s.fs.get p) ∧
       s'.fs.get (dstOf root name) =
-        some (.dir (stampOver o m a₀) (if m.mtime = 0 then m₀ else some m.mtime.toNat)) ∧
+        some (.dir (permsAttr o m true a₀) (if m.mtime = 0 then m₀ else some m.mtime.toNat)) ∧
       s'.dirTimes = s.dirTimes ++
         (if m.mtime = 0 then [] else [(dstOf root name, m.mtime.toNat)]) := by
   apply Okay.elim (Q := fun s' : LState => (∀ p, p ≠ dstOf root name → s'.fs.get p = s.fs.get p) ∧
       s'.fs.get (dstOf root name) =
-        some (.dir (stampOver o m a₀) (if m.mtime = 0 then m₀ else some m.mtime.toNat)) ∧
+        some (.dir (permsAttr o m true a₀) (if m.mtime = 0 then m₀ else some m.mtime.toNat)) ∧
       s'.dirTimes = s.dirTimes ++ (if m.mtime = 0 then [] else [(dstOf root name, m.mtime.toNat)]))
   unfold createDir
   generalize dstOf root name = dst at *
@@ -425,17 +539,16 @@ theorem createDir_existing (o : Opts) (root : List Name) (s : LState) (name : By
   simp only [Obj.isDir, ↓reduceIte]
   refine Tri.bind (Q := fun f => f = s.fs) (Tri.pure rfl) ?_
   rintro _ rfl
-  refine Tri.bind (setPerms_okay o m h hg (by intro t a e; cases e)) ?_
+  refine Tri.bind (setPerms_okay o m h hg (by intro t a e; cases e) (fun _ _ _ => rfl)) ?_
   intro f2 hf2
-  have hob : (if (o.noSameOwner && o.noSamePermissions) = true then Obj.dir a₀ m₀
-      else (Obj.dir a₀ m₀).withAttr (some (attrOf m))) = .dir (stampOver o m a₀) m₀ := by
-    unfold stampOver; split <;> rfl
+  have hob : (Obj.dir a₀ m₀).withAttr (permsAttr o m (Obj.dir a₀ m₀).isDir (Obj.dir a₀ m₀).attr) =
+      .dir (permsAttr o m true a₀) m₀ := rfl
   rw [hob] at hf2
   split
   · rename_i h0
     exact Tri.pure ⟨hf2.other, hf2.self, by simp⟩
   · rename_i h0
-    refine Tri.bind (Q := fun f3 => Upd f2 f3 dst (.dir (stampOver o m a₀) (some m.mtime.toNat)))
+    refine Tri.bind (Q := fun f3 => Upd f2 f3 dst (.dir (permsAttr o m true a₀) (some m.mtime.toNat)))
       (Okay.sys (chtimes_some m.mtime.toNat hf2.good hf2.self (by intro t a e; cases e))
         (upd_set hf2.good _)) ?_
     intro f3 hf3
@@ -443,12 +556,12 @@ theorem createDir_existing (o : Opts) (root : List Name) (s : LState) (name : By
 
 theorem createFile_fresh (o : Opts) (root : List Name) (s : LState) (name : Bytes) (m : Meta)
     (data : Bytes) (h : Good s.fs (dstOf root name)) (hn : s.fs.get (dstOf root name) = none)
-    (ht : ∀ e ∈ s.dirTimes, ¬ dstOf root name <+: e.1) :
+    (ht : ∀ e ∈ s.dirTimes, ¬ dstOf root name <+: e.1) (hnd : (m.xattrs.map Prod.fst).Nodup) :
     ∃ s', createFile o root s name m data = .ok s' ∧
-      Creates s.fs s'.fs (dstOf root name) (.file data (stampM o m) (mtimeM m)) ∧
+      Creates s.fs s'.fs (dstOf root name) (.file data (attrM o m) (mtimeM m)) ∧
       s'.dirTimes = s.dirTimes := by
   apply Okay.elim (Q := fun s' : LState => Creates s.fs s'.fs (dstOf root name)
-      (.file data (stampM o m) (mtimeM m)) ∧ s'.dirTimes = s.dirTimes)
+      (.file data (attrM o m) (mtimeM m)) ∧ s'.dirTimes = s.dirTimes)
   unfold createFile
   generalize dstOf root name = dst at *
   simp only []
@@ -462,10 +575,10 @@ theorem createFile_fresh (o : Opts) (root : List Name) (s : LState) (name : Byte
   rw [hkeep]
   refine Tri.bind (Q := fun f => f = s.fs) (Okay.sys (removeAll_fresh h hn) rfl) ?_
   rintro _ rfl
-  refine Tri.bind (Q := fun f => Creates s.fs f dst (.file data none none))
+  refine Tri.bind (Q := fun f => Creates s.fs f dst (.file data {} none))
     (Okay.sys (createTrunc_fresh data h hn) (creates_create s.fs h.ne _)) ?_
   intro f1 hf1
-  refine Tri.bind (perms_tail o m (slots_file data) h hf1) ?_
+  refine Tri.bind (perms_tail o m (slots_file data) h hf1 hnd (fun _ _ _ => rfl)) ?_
   intro f2 hf2
   split
   · rename_i h0
@@ -475,23 +588,28 @@ theorem createFile_fresh (o : Opts) (root : List Name) (s : LState) (name : Byte
     intro f3 hf3
     exact Tri.pure ⟨by rw [mtimeM_pos h0]; exact hf3, rfl⟩
 
+/-- no `user.*` attribute among `xs` (they cannot be set on symbolic links and device nodes) -/
+def NoUserXattr (xs : List (Bytes × Bytes)) : Prop := ∀ kv ∈ xs, isUserXattr kv.1 = false
+
 theorem createDevice_fresh (o : Opts) (root : List Name) (s : LState) (name : Bytes) (m : Meta)
-    (ma mi : Nat) (h : Good s.fs (dstOf root name)) (hn : s.fs.get (dstOf root name) = none) :
+    (ma mi : Nat) (h : Good s.fs (dstOf root name)) (hn : s.fs.get (dstOf root name) = none)
+    (hnd : (m.xattrs.map Prod.fst).Nodup) (hnu : o.noSameOwner = false → NoUserXattr m.xattrs) :
     ∃ s', createDevice o root s name m ma mi = .ok s' ∧
-      Creates s.fs s'.fs (dstOf root name) (.dev ma mi (stampM o m) (mtimeM m)) ∧
+      Creates s.fs s'.fs (dstOf root name) (.dev ma mi (attrM o m) (mtimeM m)) ∧
       s'.dirTimes = s.dirTimes := by
   apply Okay.elim (Q := fun s' : LState => Creates s.fs s'.fs (dstOf root name)
-      (.dev ma mi (stampM o m) (mtimeM m)) ∧ s'.dirTimes = s.dirTimes)
+      (.dev ma mi (attrM o m) (mtimeM m)) ∧ s'.dirTimes = s.dirTimes)
   unfold createDevice
   generalize dstOf root name = dst at *
   simp only []
   rw [unlinkIfThere_fresh h hn]
   refine Tri.bind (Q := fun f => f = s.fs) (Tri.pure rfl) ?_
   rintro _ rfl
-  refine Tri.bind (Q := fun f => Creates s.fs f dst (.dev ma mi none none))
+  refine Tri.bind (Q := fun f => Creates s.fs f dst (.dev ma mi {} none))
     (Okay.sys (mknod_fresh ma mi h hn) (creates_create s.fs h.ne _)) ?_
   intro f1 hf1
-  refine Tri.bind (perms_tail o m (slots_dev ma mi) h hf1) ?_
+  refine Tri.bind (perms_tail o m (slots_dev ma mi) h hf1 hnd
+    (fun hO kv hkv => by simp [xaOK, hnu hO kv hkv])) ?_
   intro f2 hf2
   split
   · rename_i h0
@@ -502,47 +620,89 @@ theorem createDevice_fresh (o : Opts) (root : List Name) (s : LState) (name : By
     exact Tri.pure ⟨by rw [mtimeM_pos h0]; exact hf3, rfl⟩
 
 theorem createSymlink_fresh (o : Opts) (root : List Name) (s : LState) (name : Bytes) (m : Meta)
-    (target : Bytes) (h : Good s.fs (dstOf root name)) (hn : s.fs.get (dstOf root name) = none) :
+    (target : Bytes) (h : Good s.fs (dstOf root name)) (hn : s.fs.get (dstOf root name) = none)
+    (hnd : (m.xattrs.map Prod.fst).Nodup) (hnu : o.noSameOwner = false → NoUserXattr m.xattrs) :
     ∃ s', createSymlink o root s name m target = .ok s' ∧
-      Creates s.fs s'.fs (dstOf root name) (.symlink target (linkStampM o m)) ∧
+      Creates s.fs s'.fs (dstOf root name) (.symlink target (linkAttrM o m)) ∧
       s'.dirTimes = s.dirTimes := by
   apply Okay.elim (Q := fun s' : LState => Creates s.fs s'.fs (dstOf root name)
-      (.symlink target (linkStampM o m)) ∧ s'.dirTimes = s.dirTimes)
+      (.symlink target (linkAttrM o m)) ∧ s'.dirTimes = s.dirTimes)
   unfold createSymlink
   generalize dstOf root name = dst at *
   simp only []
   rw [unlinkIfThere_fresh h hn]
   refine Tri.bind (Q := fun f => f = s.fs) (Tri.pure rfl) ?_
   rintro _ rfl
-  refine Tri.bind (Q := fun f => Creates s.fs f dst (.symlink target none))
+  refine Tri.bind (Q := fun f => Creates s.fs f dst (.symlink target {}))
     (Okay.sys (symlinkAt_fresh target h hn) (creates_create s.fs h.ne _)) ?_
   intro f1 hf1
-  have step : ∀ f : FS, Creates s.fs f dst (.symlink target (some (attrOf m))) ∨
-        Creates s.fs f dst (.symlink target none) →
-      Okay (fun f' => Creates s.fs f' dst (.symlink target (some (attrOf m))))
-        (sys f (setAttr f false dst (attrOf m))) := by
-    intro f hf
-    rcases hf with hf | hf
-    · have hG := h.creates hf
-      refine Okay.sys (setAttr_some false _ hG hf.get_self (by intro hf; cases hf)) ?_
-      have := upd_set hG ((Obj.symlink target (some (attrOf m))).withAttr (some (attrOf m)))
-      exact hf.upd this.other this.self
-    · have hG := h.creates hf
-      refine Okay.sys (setAttr_some false _ hG hf.get_self (by intro hf; cases hf)) ?_
-      have := upd_set hG ((Obj.symlink target none).withAttr (some (attrOf m)))
-      exact hf.upd this.other this.self
+  have hG1 := h.creates hf1
   simp only [pure_bind]
-  unfold linkStampM
-  cases o.noSameOwner with
-  | true => exact Tri.pure ⟨hf1, rfl⟩
+  cases hO : o.noSameOwner with
+  | true =>
+    simp only [↓reduceIte]
+    have e : linkAttrM o m = {} := by simp [linkAttrM, hO]
+    rw [e]
+    exact Tri.pure ⟨hf1, rfl⟩
   | false =>
     simp only [Bool.false_eq_true, ↓reduceIte]
-    refine Tri.bind (step f1 (.inr hf1)) ?_
+    refine Tri.bind (Q := fun f => Upd f1 f dst ((Obj.symlink target {}).withAttr
+        (chownAttr false {} m.uid.toNat m.gid.toNat)))
+      (Okay.sys (chown_some false _ _ hG1 hf1.get_self (by intro hf; cases hf)) (upd_set hG1 _)) ?_
     intro f2 hf2
-    split
-    · exact Tri.pure ⟨hf2, rfl⟩
-    · refine Tri.bind (step f2 (.inl hf2)) ?_
-      intro f3 hf3
-      exact Tri.pure ⟨hf3, rfl⟩
+    refine Tri.bind (setXattrs_okay (Obj.symlink target {}) m.xattrs f2 _ hf2.good hf2.self
+      (fun kv hkv => by simp [xaOK, hnu hO kv hkv])) ?_
+    intro f3 hf3
+    have e : (Obj.symlink target {}).withAttr
+        { chownAttr false {} m.uid.toNat m.gid.toNat with
+          xattrs := xaFold (chownAttr false {} m.uid.toNat m.gid.toNat).xattrs m.xattrs } =
+        .symlink target (linkAttrM o m) := by
+      simp [Obj.withAttr, linkAttrM, chownAttr, hO, xaFold_nil_left hnd]
+    rw [e] at hf3
+    have hu := hf2.trans hf3
+    exact Tri.pure ⟨hf1.upd hu.other hu.self, rfl⟩
+
+/-- **EPERM**: with ownership/xattrs being restored, a symbolic link record carrying a `user.*` extended
+    attribute makes `CreateSymlink` fail (the link itself has been created by then) -/
+theorem setXattrs_link_fails {dst : List Name} (target : Bytes) :
+    ∀ (xs : List (Bytes × Bytes)) (fs : FS) (a : Attr), Good fs dst → fs.get dst = some (.symlink target a) →
+      (∃ kv ∈ xs, isUserXattr kv.1 = true) → ∃ f, setXattrs fs dst xs = .error f
+  | [], _, _, _, _, hx => by obtain ⟨_, h, _⟩ := hx; cases h
+  | (k, v) :: rest, fs, a, h, hg, hx => by
+    rw [setXattrs]
+    cases hk : isUserXattr k with
+    | true =>
+      rw [lsetxattr_refused k v h hg (by simp [xaOK, hk])]
+      exact ⟨fs, rfl⟩
+    | false =>
+      rw [lsetxattr_some k v h hg (by simp [xaOK, hk])]
+      have hu := upd_set h ((Obj.symlink target a).withAttr
+        { (Obj.symlink target a).attr with xattrs := xaSet (Obj.symlink target a).attr.xattrs k v })
+      obtain ⟨kv, hkv, hkvu⟩ := hx
+      have hrest : ∃ kv ∈ rest, isUserXattr kv.1 = true := by
+        rcases List.mem_cons.1 hkv with rfl | hkv
+        · rw [hk] at hkvu; cases hkvu
+        · exact ⟨kv, hkv, hkvu⟩
+      exact setXattrs_link_fails target rest _ _ hu.good hu.self hrest
+
+theorem createSymlink_user_xattr_fails (o : Opts) (root : List Name) (s : LState) (name : Bytes) (m : Meta)
+    (target : Bytes) (h : Good s.fs (dstOf root name)) (hn : s.fs.get (dstOf root name) = none)
+    (hO : o.noSameOwner = false) (hx : ∃ kv ∈ m.xattrs, isUserXattr kv.1 = true) :
+    ∃ f, createSymlink o root s name m target = .error f := by
+  unfold createSymlink
+  generalize dstOf root name = dst at *
+  simp only []
+  have hc := creates_create s.fs h.ne (Obj.symlink target {})
+  have hG1 := h.creates hc
+  have hu := upd_set hG1 ((Obj.symlink target {}).withAttr
+    (chownAttr (Obj.symlink target {}).isDir (Obj.symlink target {}).attr m.uid.toNat m.gid.toNat))
+  obtain ⟨f, hf⟩ := setXattrs_link_fails target m.xattrs _ _ hu.good hu.self hx
+  rw [unlinkIfThere_fresh h hn]
+  simp only [bind, Except.bind]
+  rw [symlinkAt_fresh target h hn]
+  simp only [sys, hO, Bool.false_eq_true, ↓reduceIte]
+  rw [chown_some false _ _ hG1 hc.get_self (by intro hf; cases hf)]
+  simp only [hf]
+  exact ⟨f, rfl⟩
 
 end Desync.LFS
